@@ -145,7 +145,7 @@ Definition effect (o : op) (q : path) (vs : list N) : list N :=
 
 Lemma mget_apply : forall m o q, mwf m -> mget (apply_spec m o) q = effect o q (mget m q).
 Proof.
-  intros m o q [Hnd _]. destruct o as [s v | s v | s v | s | v |]; simpl.
+  intros m o q [Hnd _]. destruct o as [s v | s v | s v | s | v |]; unfold apply_spec, effect.
   - unfold s_add. rewrite mget_set. destruct (path_eq_dec q (split_levels s)); [subst|]; reflexivity.
   - unfold s_set. rewrite mget_set. reflexivity.
   - unfold s_remove. rewrite mget_set. destruct (path_eq_dec q (split_levels s)); [subst|]; reflexivity.
@@ -194,9 +194,11 @@ Qed.
 Lemma permb_iff : forall l1 l2, permb l1 l2 = true <-> Permutation l1 l2.
 Proof.
   induction l1 as [|x l1 IH]; intros l2; simpl.
-  - destruct l2; split; try reflexivity; try discriminate.
-    + intros _. constructor.
-    + intros H. apply Permutation_nil in H. discriminate.
+  - destruct l2; split; intros H.
+    + constructor.
+    + reflexivity.
+    + discriminate.
+    + apply Permutation_nil in H. discriminate.
   - split.
     + intros H. destruct (remove_one x l2) as [r|] eqn:E; [|discriminate].
       apply IH in H. apply remove_one_perm in E.
@@ -266,15 +268,10 @@ Proof.
     try (assert (Hs : split_levels s1 <> split_levels s2) by (intros E; apply H; apply split_levels_inj; exact E);
          destruct (path_eq_dec q (split_levels s1)) as [E1 | E1]; destruct (path_eq_dec q (split_levels s2)) as [E2 | E2];
          try reflexivity; congruence).
-  - destruct (path_eq_dec q (split_levels s1)); [symmetry; apply sv_remove_add; exact H | reflexivity].
-  - destruct (path_eq_dec q (split_levels s1)); [apply sv_remove_single; exact H | reflexivity].
-  - destruct (path_eq_dec q (split_levels s1)); [apply sv_remove_comm | reflexivity].
-  - destruct (path_eq_dec q (split_levels s1)); reflexivity.
-  - destruct (path_eq_dec q (split_levels s2)); [apply sv_remove_add; exact H | reflexivity].
-  - destruct (path_eq_dec q (split_levels s2)); [symmetry; apply sv_remove_single; exact H | reflexivity].
-  - destruct (path_eq_dec q (split_levels s2)); [apply sv_remove_comm | reflexivity].
-  - destruct (path_eq_dec q (split_levels s2)); reflexivity.
-  - apply sv_remove_comm.
+  all: try destruct (path_eq_dec q _);
+    first [ reflexivity | apply sv_remove_comm
+          | apply sv_remove_add; congruence | symmetry; apply sv_remove_add; congruence
+          | apply sv_remove_single; congruence | symmetry; apply sv_remove_single; congruence ].
 Qed.
 
 (* independent operations commute on the specification: same contents in either order *)
